@@ -81,6 +81,8 @@ func planDecoy(level int) []core.Unit {
 		L = 8
 	case 2:
 		L = 9
+	case 3:
+		L = 10
 	}
 	var us []core.Unit
 	for ci, c := range constructs {
